@@ -122,27 +122,27 @@ def wrapTail (L : Limits) (off : Nat) (rest : List Chunk) (n : Nat) : List (Opti
 
 theorem wrapItems_true (L : Limits) (off : Nat) (it : Chunk) (rest : List Chunk) (ly : Nat) :
     wrapItems L off (it :: rest) ly true =
-      some (spaces (off + L.indent)) :: some it ::
-        wrapTail L off rest (off + L.indent + it.length) := by
+      some (plain (spaces (off + L.indent))) :: some it ::
+        wrapTail L off rest (off + L.indent + it.text.length) := by
   rw [wrapItems.eq_def]; cases rest <;> simp [wrapTail]
 
 theorem wrapItems_brk (L : Limits) (off : Nat) (it : Chunk) (rest : List Chunk) (ly : Nat)
-    (h : ly + it.length > L.wrap) :
+    (h : ly + it.text.length > L.wrap) :
     wrapItems L off (it :: rest) ly false =
-      some [','] :: none :: some (spaces (off + L.indent)) :: some it ::
-        wrapTail L off rest (off + L.indent + it.length) := by
+      some (plain [',']) :: none :: some (plain (spaces (off + L.indent))) :: some it ::
+        wrapTail L off rest (off + L.indent + it.text.length) := by
   rw [wrapItems.eq_def]; cases rest <;> simp [wrapTail, h]
 
 theorem wrapItems_nobrk (L : Limits) (off : Nat) (it : Chunk) (rest : List Chunk) (ly : Nat)
-    (h : ¬ ly + it.length > L.wrap) :
+    (h : ¬ ly + it.text.length > L.wrap) :
     wrapItems L off (it :: rest) ly false =
-      some [',', ' '] :: some it :: wrapTail L off rest (ly + 2 + it.length) := by
+      some (plain [',', ' ']) :: some it :: wrapTail L off rest (ly + 2 + it.text.length) := by
   rw [wrapItems.eq_def]; cases rest <;> simp [wrapTail, h]
 
 /-- the wrapped layout: whatever the line-breaking state does, the items come out once each, in
 order, separated by exactly one comma; the loop ends with a new-line marker -/
 theorem body_wrapItems {α : Type} (f : α → Chunk) (g : α → List Tok) (L : Limits) (off : Nat)
-    (a : α) (l : List α) (h : ∀ x, x ∈ a :: l → LexV c (f x) (g x)) (ly : Nat) (first : Bool) :
+    (a : α) (l : List α) (h : ∀ x, x ∈ a :: l → LexV c (f x).text (g x)) (ly : Nat) (first : Bool) :
     ∃ body, text (wrapItems L off ((a :: l).map f) ly first) = body ++ ['\n'] ∧
       Body c first body ((a :: l).map g) := by
   induction l generalizing a ly first with
@@ -150,14 +150,15 @@ theorem body_wrapItems {α : Type} (f : α → Chunk) (g : α → List Tok) (L :
     have ha := h a (by simp)
     cases first with
     | true =>
-      refine ⟨spaces (off + L.indent) ++ (f a ++ []), ?_, Body.first (isWsTxt_spaces c _) ha (.nil _)⟩
+      refine ⟨spaces (off + L.indent) ++ ((f a).text ++ []), ?_,
+        Body.first (isWsTxt_spaces c _) ha (.nil _)⟩
       simp [wrapItems_true, wrapTail]
     | false =>
-      by_cases hb : ly + (f a).length > L.wrap
-      · refine ⟨(',' :: '\n' :: spaces (off + L.indent)) ++ (f a ++ []), ?_,
+      by_cases hb : ly + (f a).text.length > L.wrap
+      · refine ⟨(',' :: '\n' :: spaces (off + L.indent)) ++ ((f a).text ++ []), ?_,
           Body.next (isSep_comma_nl_spaces c _) ha (.nil _)⟩
         simp [wrapItems_brk, hb, wrapTail]
-      · refine ⟨[',', ' '] ++ (f a ++ []), ?_, Body.next (isSep_comma_space c) ha (.nil _)⟩
+      · refine ⟨[',', ' '] ++ ((f a).text ++ []), ?_, Body.next (isSep_comma_space c) ha (.nil _)⟩
         simp [wrapItems_nobrk, hb, wrapTail]
   | cons b r ih =>
     have ha := h a (by simp)
@@ -166,20 +167,21 @@ theorem body_wrapItems {α : Type} (f : α → Chunk) (g : α → List Tok) (L :
       fun _ => rfl
     cases first with
     | true =>
-      obtain ⟨body, e, hb⟩ := hr (off + L.indent + (f a).length)
-      refine ⟨spaces (off + L.indent) ++ (f a ++ body), ?_, Body.first (isWsTxt_spaces c _) ha hb⟩
+      obtain ⟨body, e, hb⟩ := hr (off + L.indent + (f a).text.length)
+      refine ⟨spaces (off + L.indent) ++ ((f a).text ++ body), ?_,
+        Body.first (isWsTxt_spaces c _) ha hb⟩
       rw [List.map_cons, wrapItems_true, ht, text_some, text_some, e]
       simp
     | false =>
-      by_cases hbk : ly + (f a).length > L.wrap
-      · obtain ⟨body, e, hb⟩ := hr (off + L.indent + (f a).length)
-        refine ⟨(',' :: '\n' :: spaces (off + L.indent)) ++ (f a ++ body), ?_,
+      by_cases hbk : ly + (f a).text.length > L.wrap
+      · obtain ⟨body, e, hb⟩ := hr (off + L.indent + (f a).text.length)
+        refine ⟨(',' :: '\n' :: spaces (off + L.indent)) ++ ((f a).text ++ body), ?_,
           Body.next (isSep_comma_nl_spaces c _) ha hb⟩
         rw [List.map_cons, wrapItems_brk _ _ _ _ _ hbk, ht, text_some, text_none, text_some,
           text_some, e]
         simp
-      · obtain ⟨body, e, hb⟩ := hr (ly + 2 + (f a).length)
-        refine ⟨[',', ' '] ++ (f a ++ body), ?_, Body.next (isSep_comma_space c) ha hb⟩
+      · obtain ⟨body, e, hb⟩ := hr (ly + 2 + (f a).text.length)
+        refine ⟨[',', ' '] ++ ((f a).text ++ body), ?_, Body.next (isSep_comma_space c) ha hb⟩
         rw [List.map_cons, wrapItems_nobrk _ _ _ _ _ hbk, ht, text_some, text_some, e]
         simp
 
